@@ -12,7 +12,7 @@ ASSUMPTIONS = ["each transaction is used by one goroutine at a time", "fault-fre
 PROFILE = "c08"
 QUICK, THOROUGH = 60, 600
 WHAT = 'C08: snapshot reader vs multi-key committer, Begin racing with GC, two Begins racing with GC'
-WITNESSES = "fractured:C,C,C,C,C,C,C,R,C,R,R,R,R;two-begins-gc:R1,R1,R2,W,R1,R1,W,W,R2,R2,R2"
+WITNESSES = "fractured:C,C,C,C,C,C,C,R,C,R,R,R,R;two-begins-gc:R1,R1,R2,W,R1,R1,W,W,R2,R2,R2;two-begins-gc:R1,W,R2,R2,W,W,W,R1,R1,R1,R2,R2;two-begins-gc:R1,W,R2,R2,R1,W,W,W,R1,R1,R2,R2"
 
 
 def correspond(ctx):
